@@ -324,6 +324,17 @@ func (f *frame) run(st0 *State) {
 					break
 				}
 				f.vals[phi] = f.freshVal(phi.Name()+"_"+sanitize(phi.Comment), phi.Type(), in, st)
+				if f.top && entryIdx >= 0 && f.vals[phi].T != "" {
+					// replay hint: in the first iteration the loop state is the entry state
+					vc.FirstIter = append(vc.FirstIter, Eq(f.vals[phi].T, f.val(phi.Edges[entryIdx]).T))
+				}
+			}
+			if f.top {
+				for _, srt := range vc.allHeaps() {
+					if st.H[srt] != pre.H[srt] {
+						vc.FirstIter = append(vc.FirstIter, Eq(st.H[srt], pre.H[srt]))
+					}
+				}
 			}
 			// assume invariants
 			for _, c := range f.invariantClauses(li) {
